@@ -487,6 +487,83 @@ def dap_case(spec):
     return v.export()
 
 
+def hostile_dap_arguments(rng):
+    """well-formed requests whose argument values are hostile: non-ASCII text with the cursor inside a multi-byte character, huge and
+    negative numbers, garbage references, very long strings"""
+    texts = ['gr\u00f6\u00dfe', '\u53d8\u91cfx', 'a\u0301b', '\U0001f600\U0001f600', 'x.\u00e9', 'ASCII_only', '', ' ', '\u00e9' * 40]
+    big = [0, 1, -1, 2 ** 31, 2 ** 63 - 1, 2 ** 63, 2 ** 64, -2 ** 63, 10 ** 30]
+    out = []
+    for _ in range(60):
+        k = rng.randrange(8)
+        if k == 0:
+            t = rng.choice(texts)
+            out.append(('completions', {'text': t, 'column': rng.randint(0, len(t.encode()) + 2), 'line': rng.choice([1, 0, 5])}))
+        elif k == 1:
+            out.append(('evaluate', {'expression': rng.choice(texts) + rng.choice(['', '[0]', '.x', '*', '((((']), 'context': rng.choice(['watch', 'repl', 'hover'])}))
+        elif k == 2:
+            out.append(('setBreakpoints', {'source': {'path': rng.choice(['/nonexistent.rs', '', '\u00e9.rs'])},
+                                           'breakpoints': [{'line': rng.choice(big), 'condition': rng.choice(texts), 'hitCondition': rng.choice(['>=', '1e9', '\u00e9', '-1'])}]}))
+        elif k == 3:
+            out.append(('readMemory', {'memoryReference': rng.choice(['0x0', '0xffffffffffffffff', 'zz', '', '-1']), 'count': rng.choice(big), 'offset': rng.choice(big)}))
+        elif k == 4:
+            out.append(('disassemble', {'memoryReference': rng.choice(['0x0', '0x555555554000', 'q']), 'instructionCount': rng.choice(big),
+                                        'instructionOffset': rng.choice(big), 'offset': rng.choice(big)}))
+        elif k == 5:
+            out.append(('variables', {'variablesReference': rng.choice(big), 'start': rng.choice(big), 'count': rng.choice(big)}))
+        elif k == 6:
+            out.append(('stackTrace', {'threadId': rng.choice(big), 'startFrame': rng.choice(big), 'levels': rng.choice(big)}))
+        else:
+            out.append(('setExpression', {'expression': rng.choice(texts), 'value': rng.choice(texts + ['1e400', '-0'])}))
+    return out
+
+
+def dap_arguments_case(spec):
+    """hostile argument values in well-formed requests at a stop: every request is answered (success or error) and the session stays usable"""
+    idx, tier = spec
+    v = Verdict('C08', tier, '')
+    rng = rng_for(common.seed(), 'c08d', idx)
+    src, side = poison.gen(1)
+    b = corpus.compile_rust('poison0', src, corpus.Config(tc='1.89'), side)
+    ctx = {'leg': 'dap-arguments'}
+    try:
+        d = Dap()
+    except DapDead:
+        v.inconc('adapter-did-not-start')
+        return v.export()
+    last = None
+    try:
+        d.request('initialize', {'adapterID': 'x'})
+        d.request('launch', {'program': b.path, 'cwd': b.dir})
+        d.request('setFunctionBreakpoints', {'breakpoints': [{'name': 'marker'}]})
+        s0 = len(d.log)
+        d.request('configurationDone')
+        if d.wait_event(('stopped',), timeout=30, start=s0) is None:
+            v.inconc('dap-stop-not-reached')
+            return v.export()
+        for cmd, args in hostile_dap_arguments(rng):
+            last = (cmd, args)
+            r = d.request(cmd, args, timeout=20)
+            v.count('dap_hostile_argument_requests')
+            if r is None:
+                v.violation(f'c08:dap-request-not-answered:{cmd}', 'a well-formed request with hostile argument values got no response (the adapter died or hangs)',
+                            dict(ctx, request=cmd, arguments=str(args)[:300], adapter_exit=d.proc.poll(), closed=d.closed))
+                break
+        else:
+            c = d.request('threads', timeout=10)
+            v.count('canaries')
+            if c is None or not c.get('success'):
+                v.violation('c08:dap-canary-failed-after-hostile-arguments', 'the session is no longer usable after hostile argument values', dict(ctx, reply=str(c)[:200]))
+        v.case(signature=('dap-arguments', idx), n=1)
+    finally:
+        rc, err = d.close()
+        if b'panicked' in (err or b''):
+            t = err.decode('latin1')
+            i = t.find('panicked at')
+            v.violation('crash:panic:' + t[i + 12:i + 90].split('\n')[0].strip(':'), 'the adapter process panicked',
+                        dict(ctx, request=str(last)[:300], stderr=t[i:i + 300]))
+    return v.export()
+
+
 def main(tier):
     rule = ('case = one batch: 1000 parser inputs / ~150 hostile data queries at a stop (incl. type casts onto poison pages) / a console session '
             'in a pty / one malformed DAP envelope; oracle: process alive, no panic, no watchdog expiry, bounds probes silent, canary answers; '
@@ -517,5 +594,8 @@ def main(tier):
     for res in common.safe_map(console_case, [(i, tier) for i in range(2 if tier == 'quick' else 20)], procs=2):
         V.merge(res)
     for res in common.safe_map(dap_case, [(i, tier) for i in range(len(GARBAGE) * (2 if tier == 'quick' else 4))], procs=4):
+        V.merge(res)
+    V.minima['dap_hostile_argument_requests'] = 200 if tier == 'quick' else 2000
+    for res in common.safe_map(dap_arguments_case, [(i, tier) for i in range(6 if tier == 'quick' else 60)], procs=4):
         V.merge(res)
     return V.finish()
